@@ -8,6 +8,7 @@ from rv.props import common as C
 LEVEL = "exploration"
 RULE = ("cases drawn per (algorithm x input class x presentation x configuration) inside the cost envelope; "
         "complete greedy with all 16 switch masks x 5 objectives, dp/ilp x 5 objectives, cbldm numbins=2; "
+        "per rotation step also 6 cheap-heuristic cases (multifit mostly; 1-14 items up to 12..100, 1-5 bins), zero-valued items inside the searches, nested searches on one manager, cbldm at its stack limit; "
         "non-trivial = n >= 2 and numbins >= 2; distinct on (algorithm, config, sorted values, numbins, presentation)")
 ASSUMPTIONS = ["values are non-negative ints with totals < 2^53", "rnp with numbins >= 6 only via the known-finding replay",
                "an exception on an in-quantifier input counts as a violation (DESIGN §3)"]
@@ -63,6 +64,13 @@ def run_shard(spec, rng, ctx):
         case = C.draw_partition_case(rng, alg=alg, classes=CLASSES)
         judge(case, ctx)
         i += 1
+        for _ in range(6):
+            # volume for the cheap heuristics (a call costs ~0.1 ms): small inputs, 1-5 bins, values up to 12..100. Multifit gets the largest share: "fewer bins, never more"
+            # rests on the interplay of its binary search with its final first-fit-decreasing run, which fails only on rare capacity coincidences
+            alg = rng.choice(["multifit", "multifit", "multifit", "multifit", "greedy", "kk", "roundrobin"])
+            judge({"kind": "partition", "alg": alg, "k": rng.choice([1, 2, 2, 3, 3, 4, 5]), "values": [rng.randint(0, rng.choice([12, 20, 50, 100])) for _ in range(rng.randint(1, 14))],
+                   "cls": "cheap_volume", "pres": rng.choice(["list", "list", "list", "dict_str", "names_int"]), "pres_seed": rng.randrange(1 << 30),
+                   "iterations": rng.choice([None, None, 3, 5, 10, 20]) if alg == "multifit" else None}, ctx)
         if i % 4 == 1:
             # zero-valued items inside the branching searches (a zero changes no sum, so bookkeeping slips with zeros are invisible to every sum-based test):
             # 3-5 bins, 5-8 items over 0..20 with at least one zero
